@@ -306,6 +306,9 @@ func main() {
 			en, *restrictS, e.stats.paths, e.stats.forks, e.stats.steps, e.stats.asserts, e.stats.assertUnsat, e.stats.assertTrivial, e.stats.assertSat, e.stats.feas, solver.Queries, solver.Fallbacks, solver.Time.Seconds(), wall.Seconds())
 		fmt.Printf("   status: %v  reached: %v\n", res.Status, res.Reached)
 		fmt.Printf("   query ms: p50=%.1f p99=%.1f max=%.1f cache-hits=%d\n", res.QueryP50ms, res.QueryP99ms, res.QueryMaxms, e.stats.cacheHits)
+		if n := solver.Cancels; n > 0 {
+			fmt.Printf("   solver cancellations (own time limit hit while asserting; context restarted, query re-decided in a fresh context): %d\n", n)
+		}
 		if n := solver.Errors; n > 0 {
 			e.unsupported[fmt.Sprintf("solver reported %d (error ...) lines; affected queries were re-decided in a fresh context or counted unknown", n)] = n
 		}
